@@ -111,7 +111,9 @@ T_G2 == { G("H", <<QI("q", 0)>>), G("H", <<QI("q", 2)>>), G("S", <<QI("q", 2)>>)
 O_G2 == { OSub(I1) }
 
 \* ---------------------------------------------------------------- execution: parallel blocks (C13)
-H_P == { Hdr(<<>>, <<DReg("q", I3), DSlice("r", "q", I1, I3, None)>>, <<>>, ExactGates) }
+H_P == { Hdr(<<>>, <<DReg("q", I3), DSlice("r", "q", I1, I3, None)>>, <<>>, ExactGates),
+         \* a register sized by a let constant, an alias bounded by it
+         Hdr(<<DLet("n", I3)>>, <<DReg("q", Let("n")), DSlice("r", "q", I1, Let("n"), None)>>, <<>>, ExactGates) }
 M_P == << MD("m", <<"x">>, {"seq"}, { G("X", <<Par("x")>>), G("CX", <<Par("x"), QI("q", 0)>>) }, {}, 1) >>
 T_P == { G("X", <<QI("q", 0)>>), G("X", <<QI("q", 1)>>), G("CX", <<QI("q", 1), QI("q", 2)>>), G("X", <<QI("r", 0)>>),
          G("m", <<QI("q", 2)>>), G("I_X", <<QI("q", 0)>>), G("H", <<QI("r", 1)>>) }
